@@ -52,6 +52,9 @@ struct Scn {
     /// the responder application has one task per expected request waiting in `next_bind_request` at the same time
     /// (each takes one request and answers it at once) instead of one task that collects them all
     many_responders: bool,
+    /// script of the requester's flow-id generator for concurrent requests (empty = no collisions): ids that are taken
+    /// by a pending request, and 0, are proposed and must be passed over
+    draws: &'static [u32],
 }
 
 #[derive(Clone, Copy, Debug, PartialEq, Eq)]
@@ -74,7 +77,7 @@ fn req_pool() -> Vec<Req> {
 
 fn exec(sc: &Scn, render: bool) -> RunOutput {
     // A = requester, B = responder
-    let a = SideCfg { opts: opts(2, 1).bind_buffer_size(if sc.both_sides { 2 } else { 0 }), rng: if sc.collide { vec![5] } else if sc.sequential_same_id { vec![5; 8] } else { vec![] } };
+    let a = SideCfg { opts: opts(2, 1).bind_buffer_size(if sc.both_sides { 2 } else { 0 }), rng: if !sc.draws.is_empty() { sc.draws.to_vec() } else if sc.collide { vec![5] } else if sc.sequential_same_id { vec![5; 8] } else { vec![] } };
     let b = SideCfg { opts: opts(2, 1).bind_buffer_size(sc.buf), rng: if sc.collide { vec![5] } else { vec![] } };
     let mut w = World::two(UNBOUNDED_CAP, &a, &b);
     if sc.sequential_same_id {
@@ -422,7 +425,7 @@ pub fn run(args: &Args) -> Report {
             sc.faults,
             sc.collide,
             sc.sequential_same_id,
-            if sc.many_responders { " one responder task per request, all waiting in next_bind_request at the same time" } else { "" }
+            if sc.many_responders { " one responder task per request, all waiting in next_bind_request at the same time".to_string() } else if sc.draws.is_empty() { String::new() } else { format!(" requester's flow-id draws {:?}", sc.draws) }
         );
         cases.push(Case { try_unbounded: false, max_k: u32::MAX, label, exec: Box::new(move |r| exec(&sc, r)) });
     };
@@ -438,30 +441,40 @@ pub fn run(args: &Args) -> Report {
                     if !thorough && n == 3 && buf == 4 && code % 3 != 0 {
                         continue;
                     }
-                    add(Scn { reqs: pool[..n].to_vec(), answers: answers.clone(), order: order.clone(), buf, with_traffic: n == 2 && code % 5 == 0, both_sides: thorough && n == 2 && code % 7 == 0, faults: false, collide: false, sequential_same_id: false, many_responders: false });
+                    add(Scn { reqs: pool[..n].to_vec(), answers: answers.clone(), order: order.clone(), buf, with_traffic: n == 2 && code % 5 == 0, both_sides: thorough && n == 2 && code % 7 == 0, faults: false, collide: false, sequential_same_id: false, many_responders: false, draws: &[] });
                 }
             }
             if n <= 2 {
-                add(Scn { reqs: pool[..n].to_vec(), answers: answers.clone(), order: (0..n).collect(), buf: 1, with_traffic: false, both_sides: false, faults: false, collide: true, sequential_same_id: false, many_responders: false });
-                add(Scn { reqs: pool[..n].to_vec(), answers: answers.clone(), order: (0..n).collect(), buf: 1, with_traffic: false, both_sides: false, faults: true, collide: false, sequential_same_id: false, many_responders: false });
+                add(Scn { reqs: pool[..n].to_vec(), answers: answers.clone(), order: (0..n).collect(), buf: 1, with_traffic: false, both_sides: false, faults: false, collide: true, sequential_same_id: false, many_responders: false, draws: &[] });
+                add(Scn { reqs: pool[..n].to_vec(), answers: answers.clone(), order: (0..n).collect(), buf: 1, with_traffic: false, both_sides: false, faults: true, collide: false, sequential_same_id: false, many_responders: false, draws: &[] });
             }
         }
         // one task issues the requests one after the other and draws the same flow id every time
         if n >= 2 {
             for a in [BindAnswer::Accept, BindAnswer::Reject, BindAnswer::DropIt] {
-                add(Scn { reqs: pool[..n].to_vec(), answers: vec![a; n], order: (0..n).collect(), buf: 1, with_traffic: false, both_sides: false, faults: false, collide: false, sequential_same_id: true, many_responders: false });
+                add(Scn { reqs: pool[..n].to_vec(), answers: vec![a; n], order: (0..n).collect(), buf: 1, with_traffic: false, both_sides: false, faults: false, collide: false, sequential_same_id: true, many_responders: false, draws: &[] });
             }
         }
         // a pool of responder tasks, all waiting in next_bind_request at the same time (uniform answers)
         if n >= 2 {
             for a in [BindAnswer::Accept, BindAnswer::Reject] {
                 for buf in [1usize, 4] {
-                    add(Scn { reqs: pool[..n].to_vec(), answers: vec![a; n], order: (0..n).collect(), buf, with_traffic: false, both_sides: false, faults: false, collide: false, sequential_same_id: false, many_responders: true });
+                    add(Scn { reqs: pool[..n].to_vec(), answers: vec![a; n], order: (0..n).collect(), buf, with_traffic: false, both_sides: false, faults: false, collide: false, sequential_same_id: false, many_responders: true, draws: &[] });
+                }
+            }
+        }
+        // concurrent requests whose generator proposes 0 and ids held by requests that are still pending
+        if n == 2 {
+            for draws in [&[5u32, 5, 6][..], &[5, 0, 5, 6], &[0, 5, 0, 0, 5, 7]] {
+                for answers in [[BindAnswer::Accept, BindAnswer::Reject], [BindAnswer::Reject, BindAnswer::Accept], [BindAnswer::Never, BindAnswer::Accept], [BindAnswer::Accept, BindAnswer::Accept]] {
+                    for order in [vec![0usize, 1], vec![1, 0]] {
+                        add(Scn { reqs: pool[..n].to_vec(), answers: answers.to_vec(), order, buf: 4, with_traffic: false, both_sides: false, faults: false, collide: false, sequential_same_id: false, many_responders: false, draws });
+                    }
                 }
             }
         }
         // binds disabled on the responder
-        add(Scn { reqs: pool[..n].to_vec(), answers: vec![BindAnswer::Accept; n], order: (0..n).collect(), buf: 0, with_traffic: n == 2, both_sides: false, faults: false, collide: false, sequential_same_id: false, many_responders: false });
+        add(Scn { reqs: pool[..n].to_vec(), answers: vec![BindAnswer::Accept; n], order: (0..n).collect(), buf: 0, with_traffic: n == 2, both_sides: false, faults: false, collide: false, sequential_same_id: false, many_responders: false, draws: &[] });
     }
     let plan = Plan {
         ks: if thorough { vec![0, 1, 2, 3, 4, 5] } else { vec![0, 1, 2] },
